@@ -211,19 +211,39 @@ def build_state(spec, date, klass="StateVector", propagator=None, **kw):
     return sv
 
 
+DAY_MS = 86400 * 1000
+
+
+@st.composite
+def duration_ms(draw):
+    """(milliseconds, extra microseconds) of a burn: log-uniform from 1 ms to 30 days (low-thrust arcs last days),
+    plus the boundaries of the days field of a timedelta: exactly N days, N days + a fraction, one tick below a day"""
+    kind = draw(st.sampled_from(["log", "log", "log", "days", "days+", "below-day", "short"]))
+    if kind == "log":
+        return int(round(math.exp(draw(go.uniform(0.0, math.log(30 * DAY_MS)))))) or 1, 0
+    if kind == "days":
+        return draw(st.integers(1, 30)) * DAY_MS, 0
+    if kind == "days+":
+        return draw(st.integers(1, 30)) * DAY_MS + draw(wint(1, DAY_MS - 1)), 0
+    if kind == "below-day":
+        return DAY_MS - 1, draw(st.sampled_from([0, 999]))  # 86399.999 s / 86399.999999 s
+    return draw(wint(1, 3600 * 1000)), 0
+
+
 @st.composite
 def man_spec(draw):
     """offset of the (start) date from the state epoch in microseconds, dv on the 1 mm/s grid"""
     kind = draw(st.sampled_from(["impulsive", "continuous"]))
     m = dict(
         kind=kind,
-        dt_us=draw(wint(-3600 * 10**6, 86400 * 10**6)),
+        dt_us=draw(st.sampled_from(range(4)).flatmap(
+            lambda k: wint(-3600 * 10**6, 86400 * 10**6) if k else wint(-2 * 86400 * 10**6, 40 * 86400 * 10**6))),
         dv_mm=[draw(wint(-300000, 300000)) for _ in range(3)],
         frame=draw(st.sampled_from([None, "QSW", "TNW"])),
         comment=draw(opt(st.one_of(text(20), st.sampled_from(PHRASES)), 2)),
     )
     if kind == "continuous":
-        m["dur_ms"] = draw(wint(1, 3600 * 1000))
+        m["dur_ms"], m["dur_us"] = draw(duration_ms())
         m["date_pos"] = draw(st.sampled_from(["start", "start", "median", "stop"]))
         m["by"] = draw(st.sampled_from(["dv", "dv", "accel"]))
     return m
@@ -237,7 +257,7 @@ def build_man(m, epoch_spec):
     dv = [x * 1e-3 for x in m["dv_mm"]]
     if m["kind"] == "impulsive":
         return ImpulsiveMan(date, dv, frame=m["frame"], comment=m["comment"])
-    dur = timedelta(milliseconds=m["dur_ms"])
+    dur = timedelta(milliseconds=m["dur_ms"], microseconds=m.get("dur_us", 0))
     if m["date_pos"] == "median":
         date = date + dur / 2
     elif m["date_pos"] == "stop":
